@@ -28,21 +28,22 @@ fn end_case(case: &mut Case) {
     *case = Case::None;
 }
 
-async fn run(ops: &str, out: &str, stats_path: Option<&str>, work: PathBuf) {
-    let f = std::fs::File::open(ops).expect("ops file");
-    let mut w = BufWriter::new(std::fs::File::create(out).expect("out file"));
+/// one case = one tokio runtime: when it is shut down the instances' background tasks end, their writer
+/// threads close their SQLite connections, and nothing piles up until the process exits
+async fn run_case(
+    lines: Vec<String>,
+    case_index: usize,
+    work: PathBuf,
+) -> (Vec<String>, Stats, Vec<String>) {
     let mut stats = Stats::default();
     let mut case = Case::None;
-    let mut case_index: i64 = -1;
     let mut oracle_lines: Vec<String> = vec![];
-    let _ = std::fs::create_dir_all(&work);
-    for line in std::io::BufReader::new(f).lines() {
-        let line = line.unwrap();
+    let mut outs = vec![];
+    for line in lines {
         let (kind, kv) = parse_kv(&line);
         let get = |k: &str| kv.get(k).and_then(|v| v.parse::<u64>().ok());
         let res: String = if kind == "case" {
             end_case(&mut case);
-            case_index += 1;
             match (get("id"), kv.get("eng").map(|x| x.as_str())) {
                 (Some(id), Some("fts")) => {
                     let sites = get("sites").unwrap_or(1).clamp(1, 2);
@@ -83,16 +84,50 @@ async fn run(ops: &str, out: &str, stats_path: Option<&str>, work: PathBuf) {
                     let r = world.op(&kind, &kv, &mut stats, &mut found).await;
                     for (sig, detail) in found {
                         stats.inc(&format!("oracle.{}", sig));
-                        oracle_lines.push(format!("{} {} {}", case_index.max(0), sig, detail));
+                        oracle_lines.push(format!("{} {} {}", case_index, sig, detail));
                     }
                     r
                 }
                 Case::None => "bad-op".into(),
             }
         };
-        writeln!(w, "{}", res).unwrap();
+        outs.push(res);
     }
     end_case(&mut case);
+    (outs, stats, oracle_lines)
+}
+
+fn run(ops: &str, out: &str, stats_path: Option<&str>, work: PathBuf) {
+    let f = std::fs::File::open(ops).expect("ops file");
+    let mut w = BufWriter::new(std::fs::File::create(out).expect("out file"));
+    let _ = std::fs::create_dir_all(&work);
+    // split into cases (lines before the first `case` form a case of their own: they are all `bad-op`)
+    let mut cases: Vec<Vec<String>> = vec![];
+    for line in std::io::BufReader::new(f).lines() {
+        let line = line.unwrap();
+        if line.starts_with("case ") || cases.is_empty() {
+            cases.push(vec![]);
+        }
+        cases.last_mut().unwrap().push(line);
+    }
+    let mut stats = Stats::default();
+    let mut oracle_lines: Vec<String> = vec![];
+    for (i, lines) in cases.into_iter().enumerate() {
+        let rt = tokio::runtime::Builder::new_multi_thread()
+            .worker_threads(4)
+            .enable_all()
+            .build()
+            .unwrap();
+        let (outs, st, orc) = rt.block_on(run_case(lines, i, work.clone()));
+        rt.shutdown_timeout(std::time::Duration::from_secs(5));
+        for o in outs {
+            writeln!(w, "{}", o).unwrap();
+        }
+        for (k, v) in st.counters {
+            stats.add(&k, v);
+        }
+        oracle_lines.extend(orc);
+    }
     w.flush().unwrap();
     if !oracle_lines.is_empty() {
         std::fs::write(format!("{}.oracle", out), oracle_lines.join("\n") + "\n").unwrap();
@@ -113,22 +148,14 @@ fn main() {
             &a.str_or("out", "cases.ops"),
         ),
         "run" => {
-            let rt = tokio::runtime::Builder::new_multi_thread()
-                .worker_threads(4)
-                .enable_all()
-                .build()
-                .unwrap();
             let out = a.str_or("out", "impl.out");
             let work = a
                 .get("work")
                 .map(PathBuf::from)
                 .unwrap_or_else(|| PathBuf::from(format!("{}.db", out)));
-            rt.block_on(run(&a.str_or("ops", "cases.ops"), &out, a.get("stats"), work.clone()));
-            // every instance's writer thread only ends when the runtime drops its tasks (the hourly
-            // `optimize` task keeps the writer's channel open); let those threads close their SQLite
-            // connections before the process runs its exit handlers (otherwise: sporadic heap corruption at exit)
-            rt.shutdown_timeout(std::time::Duration::from_secs(5));
-            std::thread::sleep(std::time::Duration::from_millis(500));
+            run(&a.str_or("ops", "cases.ops"), &out, a.get("stats"), work.clone());
+            // let the last writer threads close their connections before the exit handlers run
+            std::thread::sleep(std::time::Duration::from_millis(300));
             let _ = std::fs::remove_dir_all(&work);
         }
         "race" => {
